@@ -7,7 +7,7 @@ from .core import Finding, RuleResult, FactError
 from .lib_range import decode_cond
 
 PROPERTY = "C20"
-CONFIGS_QUICK = ["F0", "F2"]
+CONFIGS_QUICK = ["F0", "F2", "F3"]   # F3: the experimental feature adds code to shared numeric routines
 CONFIGS_THOROUGH = ["F0", "F1", "F2", "F3"]
 TECHNIQUE = ("XCFG: normalised MIR fingerprints of the encode/serialise call-graph closure compared across the "
              "buildable feature sets, with structural obligations on the enumerated feature gates")
@@ -15,7 +15,7 @@ EXPLANATION = (
     "Decides: for every body in the call-graph closure of the encode and serialise entry points (encode_fixed_size_frame,"
     " the single-thread stream encoder, all BitRepr and Fill impls) - NOT entering the enumerated gate functions - the "
     "set of bodies and their normalised MIR (statements, terminators, resolved callees, constants, types; no spans) are "
-    "identical in every analysed feature configuration (quick: {} vs default+decode; thorough: all four buildable "
+    "identical in every analysed feature configuration (quick: {} vs default+decode vs default+decode+experimental; thorough: all four buildable "
     "sets). The gates are an explicit list, each with a structural obligation: the parallel encoder is entered only on "
     "the true edge of a test of config.multithread (then C05 applies); the experimental estimators are entered only "
     "under config.qlpc.use_direct_mse (rejected by verification without the feature, excluded by the property with it); "
